@@ -11,48 +11,89 @@ def P(fn, i):
     return ("var", fn.params[i]["n"], fn.params[i]["d"])
 
 
-def local(fn, name):
+def local(fn, name=None, rec="OP2Utility::Stream::FileWriter"):
+    """The function's local stream object, found by its type (a rename of the variable must not matter)."""
     from ..extract import AnalysisBroken
-    c = [("var", d["n"], d["d"]) for nd in fn.nodes if nd["k"] == "DeclStmt" for d in nd["decls"] if d.get("n") == name]
+    c = [("var", d["n"], d["d"]) for nd in fn.nodes if nd["k"] == "DeclStmt" for d in nd["decls"] if d.get("rec") == rec]
     if len(c) != 1:
-        raise AnalysisBroken("%s: local stream `%s` not found" % (fn.qn, name))
+        raise AnalysisBroken("%s: expected exactly one local %s, found %d" % (fn.qn, rec.split("::")[-1], len(c)))
     return c[0]
 
 
+class _Lazy(dict):
+    """format name -> (function, stream term, root types), resolved on first use so that an anchor missing in one
+    format cannot break the checks of another."""
+
+    def __init__(self, makers):
+        super().__init__()
+        self._makers = makers
+
+    def __getitem__(self, k):
+        if k not in self.keys():
+            super().__setitem__(k, self._makers[k]())
+        return super().__getitem__(k)
+
+    def items(self):
+        for k in self._makers:
+            yield k, self[k]
+
+
 def writers(F):
-    out = {}
-    w = F.fn(M + "::Write", nparams=1, pred=lambda f: "Writer" in f.key)
-    out["map"] = (w, P(w, 0), [M])
-    w = F.fn(A + "::Write", nparams=1, pred=lambda f: "Writer &" in f.key)
-    out["prt"] = (w, P(w, 0), [A])
-    w = F.fn(B + "::WriteIndexed", nparams=1, pred=lambda f: "Writer &)" in f.key)
-    out["bmp"] = (w, P(w, 0), [B])
-    w = F.fn(T + "WriteCustomTileset", nparams=2, pred=lambda f: "Writer &," in f.key)
-    out["tileset"] = (w, P(w, 0), [B])
-    w = F.fn(V + "::WriteVolume", nparams=2)
-    out["vol"] = (w, local(w, "volWriter"), [V + "::CreateVolumeInfo"])
-    w = F.fn(C + "::WriteArchive", nparams=5)
-    out["clm"] = (w, local(w, "clmFileWriter"), [C])
-    w = F.fn(C + "::ExtractFile", nparams=2, pred=lambda f: "unsigned long" in f.key)
-    out["wav"] = (w, local(w, "waveFileWriter"), [C])
-    return out
+    def m_map():
+        w = F.fn(M + "::Write", nparams=1, pred=lambda f: "Writer" in f.key)
+        return (w, P(w, 0), [M])
+
+    def m_prt():
+        w = F.fn(A + "::Write", nparams=1, pred=lambda f: "Writer &" in f.key)
+        return (w, P(w, 0), [A])
+
+    def m_bmp():
+        w = F.fn(B + "::WriteIndexed", nparams=1, pred=lambda f: "Writer &)" in f.key)
+        return (w, P(w, 0), [B])
+
+    def m_ts():
+        w = F.fn(T + "WriteCustomTileset", nparams=2, pred=lambda f: "Writer &," in f.key)
+        return (w, P(w, 0), [B])
+
+    def m_vol():
+        w = F.fn(V + "::WriteVolume", nparams=2)
+        return (w, local(w), [V + "::CreateVolumeInfo"])
+
+    def m_clm():
+        w = F.fn(C + "::WriteArchive", nparams=5)
+        return (w, local(w), [C])
+
+    def m_wav():
+        w = F.fn(C + "::ExtractFile", nparams=2, pred=lambda f: "unsigned long" in f.key)
+        return (w, local(w), [C])
+    return _Lazy({"map": m_map, "prt": m_prt, "bmp": m_bmp, "tileset": m_ts, "vol": m_vol, "clm": m_clm, "wav": m_wav})
 
 
 def readers(F):
-    out = {}
-    r = F.fn(M + "::ReadMap", nparams=1, pred=lambda f: "Reader &)" in f.key)
-    out["map"] = (r, P(r, 0), [M])
-    r = F.fn(A + "::Read", nparams=1, pred=lambda f: "Reader &)" in f.key)
-    out["prt"] = (r, P(r, 0), [A])
-    r = F.fn(B + "::ReadIndexed", nparams=1, pred=lambda f: "Reader &)" in f.key)
-    out["bmp"] = (r, P(r, 0), [B])
-    r = F.fn(T + "ReadCustomTileset", nparams=1, pred=lambda f: "Reader &)" in f.key)
-    out["tileset"] = (r, P(r, 0), [B])
-    r = F.fn(V + "::ReadVolHeader", nparams=0)
-    out["vol"] = (r, ("mem", ("this",), "archiveFileReader"), [V])
-    r = F.fn(C + "::ReadHeader", nparams=0)
-    out["clm"] = (r, ("mem", ("this",), "clmFileReader"), [C])
-    return out
+    def r_map():
+        r = F.fn(M + "::ReadMap", nparams=1, pred=lambda f: "Reader &)" in f.key)
+        return (r, P(r, 0), [M])
+
+    def r_prt():
+        r = F.fn(A + "::Read", nparams=1, pred=lambda f: "Reader &)" in f.key)
+        return (r, P(r, 0), [A])
+
+    def r_bmp():
+        r = F.fn(B + "::ReadIndexed", nparams=1, pred=lambda f: "Reader &)" in f.key)
+        return (r, P(r, 0), [B])
+
+    def r_ts():
+        r = F.fn(T + "ReadCustomTileset", nparams=1, pred=lambda f: "Reader &)" in f.key)
+        return (r, P(r, 0), [B])
+
+    def r_vol():
+        r = F.fn(V + "::ReadVolHeader", nparams=0)
+        return (r, ("mem", ("this",), "archiveFileReader"), [V])
+
+    def r_clm():
+        r = F.fn(C + "::ReadHeader", nparams=0)
+        return (r, ("mem", ("this",), "clmFileReader"), [C])
+    return _Lazy({"map": r_map, "prt": r_prt, "bmp": r_bmp, "tileset": r_ts, "vol": r_vol, "clm": r_clm})
 
 
 def seq_obligations(F, name, with_reader=True, min_sites=None, reader_prefix=False):
